@@ -80,6 +80,12 @@ func main() {
 		}
 		scenario(rnd, s, mode, ntrials, tot)
 	}
+	if mode == "asof" {
+		for s := 0; s < (nscen+3)/4; s++ {
+			tr.Reset()
+			heapScenario(rnd, tot)
+		}
+	}
 	kv := []any{"mode", mode, "scenarios", nscen, "events", tr.N}
 	keys := []string{}
 	for k := range tot {
@@ -382,7 +388,7 @@ func tranOp(r *rand.Rand) {
 		res := try(func() {
 			switch r.Intn(4) {
 			case 0, 1:
-				ut.Output(th, t.name, randRec(r, t, r.Intn(40) == 0))
+				ut.Output(th, t.name, randRec(r, t, !noBig && r.Intn(40) == 0))
 			default:
 				it := ut.IndexIter(t.name, 0)
 				n := 1 + r.Intn(5)
@@ -397,9 +403,13 @@ func tranOp(r *rand.Rand) {
 				if off == 0 {
 					return
 				}
-				if r.Intn(2) == 0 {
+				switch r.Intn(5) {
+				case 0, 1:
 					ut.Delete(th, t.name, off)
-				} else {
+				case 2:
+					// an "update" that changes nothing
+					ut.Update(th, t.name, off, db19.OffToRec(db.Store, off))
+				default:
 					ut.Update(th, t.name, off, randRec(r, t, false))
 				}
 			}
@@ -486,6 +496,43 @@ func shortRowsThenDrop(r *rand.Rand) {
 		res := try(func() { query.DoAdmin(db, cmd, nil) })
 		tr.Emit(vh.E("Admin", "cmd", cmd, "res", res))
 		return
+	}
+}
+
+// noopUpdateTran: a transaction "updates" a row of one table to the identical record and
+// really writes another table; later the first table is written again
+func noopUpdateTran(r *rand.Rand) {
+	ts := currentTables()
+	if len(ts) < 2 {
+		return
+	}
+	r.Shuffle(len(ts), func(i, j int) { ts[i], ts[j] = ts[j], ts[i] })
+	a, b := ts[0], ts[1]
+	th := &core.Thread{}
+	ut := db.NewUpdateTran()
+	if ut == nil {
+		return
+	}
+	try(func() {
+		it := ut.IndexIter(a.name, 0)
+		it.Next(ut)
+		if !it.Eof() {
+			off := it.CurOff()
+			ut.Update(th, a.name, off, db19.OffToRec(db.Store, off))
+		}
+		ut.Output(th, b.name, freshRec(r, b))
+	})
+	if ut.Complete() == "" {
+		tr.Emit(vh.E("Committed"))
+	}
+	if r.Intn(3) == 0 {
+		db.Persist()
+	}
+	if w := db.NewUpdateTran(); w != nil {
+		try(func() { w.Output(th, a.name, freshRec(r, a)) })
+		if w.Complete() == "" {
+			tr.Emit(vh.E("Committed"))
+		}
 	}
 }
 
@@ -833,6 +880,7 @@ var (
 )
 
 var freshKey = 1000
+var noBig bool // heap store scenarios: records must fit into a small chunk
 var spanOften = os.Getenv("VERIF_SPAN_OFTEN") != ""
 
 // freshRec: a record for t with a key nobody else uses
@@ -923,6 +971,10 @@ func history(r *rand.Rand, steps int) {
 			dropRecreateDrop(r)
 			continue
 		}
+		if r.Intn(14) == 0 {
+			noopUpdateTran(r)
+			continue
+		}
 		if loadMode && r.Intn(14) == 0 {
 			liveLoad(r)
 			continue
@@ -941,6 +993,37 @@ func history(r *rand.Rand, steps int) {
 }
 
 // ---------------------------------------------------------------- scenario
+
+// heapScenario (C19): the same history on a heap store with 8 KB chunks, so that the persisted
+// states are spread over many storage chunks and asof / step searches cross chunk boundaries
+func heapScenario(r *rand.Rand, tot map[string]int) {
+	base, npers, nameSeq = 0, 0, 0
+	persistOffsets = nil
+	persistTimes = nil
+	db = db19.CreateDb(stor.HeapStor(8192))
+	vh.SetSink(sink)
+	vh.SetGate(gate)
+	curIvl = time.Duration(4+r.Intn(12)) * time.Millisecond
+	db19.StartConcur(db, curIvl)
+	tr.Emit(vh.E("Created", "statelen", db19.VerifStateLen, "tail", db19.VerifTailSize))
+	manyPersists, dumpMode, loadMode, asofMode, noBig = true, false, false, true, true
+	pendingAsof = nil
+	history(r, 90+r.Intn(60))
+	for len(pendingAsof) > 0 {
+		if d := pendingAsof[0] + 4 - time.Now().UnixMilli(); d > 0 {
+			time.Sleep(time.Duration(d) * time.Millisecond)
+		}
+		liveAsof(r, nil)
+	}
+	db.Persist()
+	tot["persists"] += npers
+	tot["heap_chunks"] += int(db.Store.Size() / 8192)
+	asofPhase(r, tot)
+	db.Close()
+	vh.SetSink(nil)
+	vh.SetGate(nil)
+	noBig = false
+}
 
 func scenario(r *rand.Rand, sn int, mode string, ntrials int, tot map[string]int) {
 	path := filepath.Join(dir, fmt.Sprintf("s%d.db", sn))
@@ -1039,6 +1122,12 @@ func asofPhase(r *rand.Rand, tot map[string]int) {
 	rt := db.NewReadTran()
 	cur, _ := logicalDigest(db)
 	emit := func(kind string, arg int, got int64) {
+		if got == 0 && kind == "future" {
+			// the live state of a database that was not reopened carries no time
+			dig, _ := digestMeta(db.Store, db19.VerifReadMeta(rt), nil)
+			tr.Emit(vh.E("Asof", "kind", kind, "arg", arg, "t", 0, "off", 0, "dig", dig))
+			return
+		}
 		if got == 0 {
 			tr.Emit(vh.E("Asof", "kind", kind, "arg", arg, "t", 0, "off", 0, "dig", ""))
 			return
@@ -1060,6 +1149,9 @@ func asofPhase(r *rand.Rand, tot map[string]int) {
 		taus = append(taus, base+int64(r.Intn(3000)))
 	}
 	for _, tau := range taus {
+		if tau >= time.Now().UnixMilli()-20 {
+			continue // not (safely) in the past: that is the "future" case below
+		}
 		got := rt.Asof(tau)
 		emit("at", int(tau-base), got)
 		// walk a few steps from here
